@@ -587,15 +587,70 @@ def has_indirection_member(prog, cls, seen=None):
     return None
 
 
+def _launch_sites(ctx, prog, f, call):
+    """A launch is judged where its future lands. Normally that is the std::async call itself. When the call is the returned
+    value of a local lambda (`auto launch = [&](...) { return std::async(...); };`) every invocation of that lambda is a launch
+    site: the lambda's parameters are replaced by the invocation's arguments. Returns [(site node, argument nodes)] or None
+    when the call sits in a lambda that is not such a wrapper."""
+    ci = callee_info(call)
+    lf = ctx.eff.func_of_node(call)
+    if lf is None or lf.lam_parent is None:
+        return [(call, list(ci["args"]))]
+    # the async call must be the operand of the lambda's return
+    p = call.get("_p")
+    while p is not None and p.get("kind") in ("ExprWithCleanups", "MaterializeTemporaryExpr", "CXXBindTemporaryExpr", "ImplicitCastExpr", "CXXConstructExpr"):
+        p = p.get("_p")
+    if p is None or p.get("kind") != "ReturnStmt":
+        return None
+    lam = getattr(lf, "lambda_expr", None)
+    v = lam.get("_p") if lam is not None else None
+    while v is not None and v.get("kind") in ("ExprWithCleanups", "MaterializeTemporaryExpr", "CXXBindTemporaryExpr", "ImplicitCastExpr", "CXXConstructExpr"):
+        v = v.get("_p")
+    if v is None or v.get("kind") != "VarDecl":
+        return None
+    pidx = {q.get("id"): i for i, q in enumerate(lf.params)}
+    sites = []
+    for r in ctx.eff.var_refs(f.outer, v.get("id")):
+        inv = r.get("_p")
+        while inv is not None and inv.get("kind") in ("ImplicitCastExpr",):
+            inv = inv.get("_p")
+        if inv is None or inv.get("kind") != "CXXOperatorCallExpr" or callee_info(inv)["name"] != "operator()":
+            return None            # the wrapper escapes or is used in another way
+        iargs = callee_info(inv)["args"]
+        args = []
+        for a in ci["args"]:
+            sa = strip(a, casts=True)
+            d = ref_decl(sa) if sa.get("kind") == "DeclRefExpr" else None
+            if d is not None and d.get("id") in pidx and pidx[d.get("id")] < len(iargs):
+                args.append(iargs[pidx[d.get("id")]])
+            else:
+                args.append(a)
+        sites.append((inv, args))
+    return sites or None
+
+
 def check_a1(ctx, prog, eff, rep, rid):
     launches = async_launches(prog)
+    expanded = []
     for f, call in launches:
+        if call.get("kind") != "CallExpr":
+            expanded.append((f, call, call, None))
+            continue
+        sites = _launch_sites(ctx, prog, f, call)
+        if sites is None:
+            rep.unknown(rid, call, f, "std::async launch inside a lambda", "the launch is wrapped in a helper whose uses are not all plain invocations: not decided")
+            continue
+        for site, args in sites:
+            expanded.append((f, call, site, args))
+    for f, call, site, site_args in expanded:
         if call.get("kind") != "CallExpr":
             rep.violation(rid, call, f, "raw thread launch", "std::thread is not modelled by the async discipline",
                           key="%s|raw thread" % f.short)
             continue
         m = async_callee(call)
-        ci = callee_info(call)
+        ci = dict(callee_info(call))
+        ci["args"] = site_args
+        launch_call, call = call, site
         what = "std::async launch"
         if m is None:
             rep.unknown(rid, call, f, what, "callee of std::async not recognised")
